@@ -183,14 +183,90 @@ def h_cacgmm_predict(env, K=2, N=1, D=2, mask=True, api='predict'):
             env.eq('bayes%d%d[%d]' % (k, j, n), lhs, rhs, atol=1e-12)
 
 
+def h_integration_predict(env, model='gcacgmm', F=2, K=2, T=1, D=2, E=1):
+    """GCACGMM / VMFCACGMM.predict: Bayes' rule with the product of the exponent-weighted stream densities, each taken
+    from the component distribution's own log_pdf, per frequency / class / frame (axis plumbing)"""
+    from pb_bss import distribution as d
+    obs = env.cplx('y', (F, T, D), lo=-2, hi=2)
+    emb = env.real('e', (F, T, E), lo=-2, hi=2)
+    V = env.cplx('V', (F, K, D, D), lo=-1, hi=1)
+    w = env.real('w', (F, K, D), lo=1e-3, hi=1)
+    pi = env.real('pi', (F, K), lo=0.05, hi=1)
+    sw = env.real('sw', (), lo=0.5, hi=2)
+    cw = env.real('cw', (), lo=0.5, hi=2)
+    # oracle first: frame norms (the code's `tiny` guard resolves once |y| >= 0.2 is known)
+    z = {}
+    for f in range(F):
+        for t in range(T):
+            S = None
+            for dd in range(D):
+                a = env.abs2(env.el(obs, (f, t, dd)))
+                S = a if S is None else S + a
+            env.assume(S >= 0.05, 'every observation frame has squared norm >= 0.05')
+            nrm = env.sqrt(S)
+            env.prove_and_use('frame_norm_ge_0.2[%d,%d]' % (f, t), nrm >= 0.2)
+    cacg = d.ComplexAngularCentralGaussian(covariance_eigenvectors=V, covariance_eigenvalues=w)
+    if model == 'gcacgmm':
+        mean = env.real('mu', (K, E), lo=-2, hi=2)
+        var = env.real('var', (K,), lo=0.2, hi=3)
+        comp = d.SphericalGaussian(mean=mean, covariance=var)
+        m = d.GCACGMM(weight=pi, weight_constant_axis=(-1,), gaussian=comp, cacg=cacg, spatial_weight=sw if env.sym else float(sw), spectral_weight=cw if env.sym else float(cw))
+    else:
+        mean = env.real('mu', (K, E), lo=-1, hi=1)
+        kap = env.real('kap', (K,), lo=0.1, hi=50)
+        comp = d.VonMisesFisher(mean=mean, concentration=kap)
+        m = d.VMFCACGMM(weight=pi, weight_constant_axis=(-1,), vmf=comp, cacg=cacg, spatial_weight=sw if env.sym else float(sw), spectral_weight=cw if env.sym else float(cw))
+        for f in range(F):
+            for t in range(T):
+                S = None
+                for ee in range(E):
+                    a = env.el(emb, (f, t, ee)) * env.el(emb, (f, t, ee))
+                    S = a if S is None else S + a
+                env.assume(S >= 0.05, 'every embedding frame has squared norm >= 0.05')
+                env.prove_and_use('embedding_norm_ge_0.2[%d,%d]' % (f, t), env.sqrt(S) >= 0.2)
+    post = m.predict(obs, emb)
+    env.shape_is('posterior', post, (F, K, T))
+    for f in range(F):
+        for t in range(T):
+            frame = obs[f, t][None, :]                                   # (N=1, D)
+            l = []
+            for k in range(K):
+                ck = d.ComplexAngularCentralGaussian(covariance_eigenvectors=V[f, k], covariance_eigenvalues=w[f, k])
+                lsp = env.el(ck.log_pdf(frame), (0,))
+                if model == 'gcacgmm':
+                    one = d.SphericalGaussian(mean=mean[k], covariance=var[k])
+                else:
+                    one = d.VonMisesFisher(mean=mean[k], concentration=kap[k])
+                lsc = env.el(one.log_pdf(emb[f, t][None, :]), (0,))
+                l.append(env.el(sw) * lsp + env.el(cw) * lsc)
+            g = [env.el(post, (f, k, t)) for k in range(K)]
+            s = g[0]
+            for k in range(1, K):
+                s = s + g[k]
+            env.eq('sum1[%d,%d]' % (f, t), s, 1.0)
+            shift = 0.0 if env.sym else max(l)
+            for k, j in itertools.combinations(range(K), 2):
+                lhs = g[k] * env.el(pi, (f, j)) * env.exp(l[j] - shift)
+                rhs = g[j] * env.el(pi, (f, k)) * env.exp(l[k] - shift)
+                env.eq('bayes%d%d[%d,%d]' % (k, j, f, t), lhs, rhs, atol=1e-12)
+
+
+# properties whose thorough extras were run end-to-end on the unchanged tree (exit 0); others: thorough == quick
+from harness.thorough_verified import THOROUGH_VERIFIED
+
+
 def cases(tier):
     cs = []
     cs.append(Case('h3/flag_K3', h_flag, dict(K=3, N=5, lead=(2,)), bounds='K=3 N=5 leading (2,), symbolic minimum in (0, 1/K)'))
     cs.append(Case('h3/flag_K2', h_flag, dict(K=2, N=3, lead=(1, 1)), bounds='K=2 N=3 leading (1,1)'))
     cs.append(Case('h2/cacgmm_predict_mask', h_cacgmm_predict, dict(K=2, N=1, D=2, mask=True, api='predict'), bounds='K=2 N=1 D=2, all masks', timeout_ms=60000))
+    for model in ['gcacgmm', 'vmfcacgmm']:
+        cs.append(Case('h2/%s_predict' % model, h_integration_predict, dict(model=model, F=2, K=2, T=1, D=2, E=1 if model == 'gcacgmm' else 2),
+                       bounds='F=2 K=2 T=1 D=2, arbitrary model parameters and stream weights in [0.5, 2]', timeout_ms=120000))
     cs.append(Case('h2/cacgmm_fit_predict_mask', h_cacgmm_predict, dict(K=2, N=1, D=2, mask=True, api='fit_predict'), bounds='K=2 N=1 D=2, one iteration, all masks',
                    timeout_ms=60000, lazy=True))
-    quick = True      # thorough extras not run end-to-end in round 1: thorough == quick until they are
+    import os
+    quick = tier == 'quick' or 'C01' not in THOROUGH_VERIFIED and os.environ.get('VERIF_TRY_EXTRAS') != '1'
     for wform in ['K1', 'KN', 'scalar']:
         for mask in [False, True]:
             for eps in [0.0, 1e-10]:
